@@ -10,6 +10,7 @@ EXPLANATION = ("C05: in sub0_recv_cb every hand-off to a context is dominated by
                "message; pub0_sock_send never parks or starts the aio and completes it on every path. Whether sub0_matches is "
                "prefix matching is a statement about memcmp over runtime bytes and is not decided."
                " Also: the subscription scan looks at every topic until one matches (R5).")
+EXPLANATION += ' Round 6: the delivery loop over the contexts visits every context (R8 = C12.R9).'
 
 
 def rule_r1(ctx):
@@ -274,3 +275,8 @@ def run(ctx):
     ctx.guard(rule_r4)
     ctx.guard(rule_r5)
     ctx.guard(rule_r7)
+    from . import c12
+    ctx.guard(c12.rule_r9)           # every context is offered the message: the delivery loop has no early exit
+    for rr in ctx.rules:
+        if rr.id == "C12.R9":
+            rr.id = "C05.R8"
